@@ -90,7 +90,7 @@ func c06RoundTrip(st *RevocationStore) *RevocationStore {
 // store from the real initial state; symbolic 256-bit root.
 // ---------------------------------------------------------------------------
 
-const c06MaxK = 32
+const c06MaxK = 64
 
 func VerifC06SmallTree() {
 	vUnwind(4096)
@@ -100,6 +100,20 @@ func VerifC06SmallTree() {
 	root := c06Hash("root")
 	prod := NewRevocationProducer(root)
 	store := NewRevocationStore()
+
+	// the producer survives its own serialisation
+	var pbuf bytes.Buffer
+	if err := prod.Encode(&pbuf); err != nil {
+		vAssert(false, "producer Encode succeeds")
+		return
+	}
+	prod2, err := NewRevocationProducerFromBytes(pbuf.Bytes())
+	if err != nil || prod2 == nil {
+		vAssert(false, "producer decodes")
+		return
+	}
+	vAssert(prod2.root.index == prod.root.index && prod2.root.hash == root, "producer round trip keeps the root")
+	prod = prod2
 	var secrets [c06MaxK]chainhash.Hash
 
 	for n := 0; n < K; n++ {
@@ -200,17 +214,19 @@ func c06StepState(b uint8, L uint8, I uint64, a chainhash.Hash) *RevocationStore
 }
 
 // c06QuickHeights are the tree heights (numbers of trailing zeros) sampled by
-// the quick tier; the thorough tier takes every height.
-var c06QuickHeights = [...]uint8{0, 1, 2, 7, 23, 47, 48}
+// the quick tier (two groups, 255 = unused slot); the thorough tier takes
+// every height.
+var c06QuickHeights = [2][4]uint8{{0, 1, 47, 48}, {2, 7, 23, 255}}
 
 // c06Height picks a height in [lo, hi]. `deep` (0 quick, 1 thorough) is pinned
 // by spec.json; the height choice is pinned per shard or explored in-process.
 func c06Height(name string, deep int, lo, hi uint8) uint8 {
 	var h uint8
 	if deep == 0 {
-		h = c06QuickHeights[vChoice(name+"q", len(c06QuickHeights))]
+		g := vChoice(name+"g", 2)
+		h = c06QuickHeights[g][vChoice(name+"q", 4)]
 	} else {
-		h = uint8(vChoice(name, 49))
+		h = uint8(4*vChoice(name+"G", 13) + vChoice(name+"K", 4))
 	}
 	if h < lo || h > hi {
 		vAssume(false)
@@ -362,7 +378,6 @@ func VerifC06StepLast() {
 	if st == nil {
 		return
 	}
-	vReach("pre-state")
 	if err := st.AddNextEntry(&a); err != nil {
 		vAssert(false, "last: the secret of index 0 (consistent with all 48 stored ones) is accepted")
 		return
@@ -373,7 +388,6 @@ func VerifC06StepLast() {
 		return
 	}
 	vAssert(*got == a, "last: the looked-up secret of index 0 equals the received one")
-	vReach("accept")
 }
 
 // ---------------------------------------------------------------------------
